@@ -215,6 +215,7 @@ def layout_stage(prop, tier, name):
     REL = {"C05": {"size", "frees", "layout", "alloc", "align", "panicked", "contents"},
            "C11": {"addr", "heap", "bits", "width", "panicked", "thin", "count"},
            "C12": {"union", "size", "layout", "frees", "panicked", "addr", "heap", "width"},
+           "C01": {"frees", "layout", "count", "panicked", "contents", "heap"},
            "C06": {"contents", "panicked", "frees"},
            "C10": {"thin", "addr", "heap", "size", "layout", "frees", "panicked", "contents"}}[prop]
     seen = set()
